@@ -87,6 +87,9 @@ func genSlotCall(t *rapid.T, s ProgSlot, o textOpts, col *collector) Call {
 	case "yaml":
 		return Call{API: "yaml", Cfg: s.Cfg, Doc: BS(genValidYAML(t)), Form: rapid.SampledFrom([]string{"string", "bytes"}).Draw(t, "form")}
 	default:
+		if rapid.IntRange(0, 14).Draw(t, "big") == 0 {
+			return Call{API: "snap", Cfg: s.Cfg, Vals: []Val{strVal(bigText(t))}}
+		}
 		return Call{API: "snap", Cfg: s.Cfg, Vals: []Val{genVal(t, o, col)}}
 	}
 }
@@ -199,6 +202,7 @@ func genHistory(t *rapid.T, col *collector, ho histOpts) histCase {
 			}
 		}
 		nex := rapid.IntRange(1, 4).Draw(t, "nexecs")
+		allSkip := ho.skips && rapid.IntRange(0, 9).Draw(t, "allskip") == 0 // a process in which every test skips before any Match* call
 		usedTests := map[int]bool{}
 		for e := 0; e < nex; e++ {
 			ti := rapid.IntRange(0, ntests-1).Draw(t, "etest")
@@ -235,7 +239,9 @@ func genHistory(t *rapid.T, col *collector, ho histOpts) histCase {
 					ex.Calls = append(ex.Calls, ExecCall{Call: bc})
 				}
 			}
-			if ho.skips && rapid.IntRange(0, 4).Draw(t, "skip") == 0 {
+			if allSkip {
+				ex.Calls = []ExecCall{{Skip: rapid.SampledFrom([]string{"Skip", "Skipf", "SkipNow"}).Draw(t, "skipkind0")}}
+			} else if ho.skips && rapid.IntRange(0, 4).Draw(t, "skip") == 0 {
 				cut := rapid.IntRange(0, len(ex.Calls)).Draw(t, "skipat")
 				ex.Calls = append(ex.Calls[:cut:cut], ExecCall{Skip: rapid.SampledFrom([]string{"Skip", "Skipf", "SkipNow"}).Draw(t, "skipkind")})
 			}
